@@ -104,7 +104,7 @@ def flow_cases(draw):
     # node-level resource monitoring with the real psutil-backed monitor: 'periodic' logs cpu/memory events (kept as
     # Parquet files in the summary), 'aggregation' keeps running statistics
     scn["monitor"] = draw(st.sampled_from(["none", "none", "periodic", "aggregation"]))
-    return {"kind": "flow", "scn": scn, "schedule": draw(gen.schedules(120)),
+    return {"kind": "flow", "scn": scn, "job_events": draw(st.booleans()), "schedule": draw(gen.schedules(120)),
             "resubmit": draw(st.sampled_from([False, False, True])),
             "user": draw(st.lists(st.fixed_dictionaries({"at": st.integers(10, 200), "cmd": st.sampled_from(["try", "show"])}), max_size=2))}
 
@@ -157,10 +157,26 @@ def run_events(case, res):
                             ev = make(e)
                             f.write(str(ev) + "\n")
                             written.setdefault(e["name"], []).append(json.loads(str(ev)))
-            stub = types.SimpleNamespace(
-                _event_filename=os.path.join(out, "run_jobs_batch_9_0_events.log"), _output=out,
-                _config=types.SimpleNamespace(iter_jobs=lambda: [types.SimpleNamespace(name=n) for n in names + ["job_without_events"]]))
-            JobRunner._aggregate_events.__wrapped__(stub) if hasattr(JobRunner._aggregate_events, "__wrapped__") else JobRunner._aggregate_events(stub)
+            # a real runner object of a batch holding these jobs (and one that wrote no events), built the way run-jobs does
+            from jade.extensions.generic_command import GenericCommandConfiguration, GenericCommandParameters
+            from jade.models import HpcConfig, SlurmConfig, SubmissionGroup, SubmitterParams
+
+            sp = SubmitterParams(hpc_config=HpcConfig(hpc_type="slurm", hpc=SlurmConfig(account="a")), poll_interval=0,
+                                 resource_monitor_type="none", resource_monitor_interval=None)
+            cfg = GenericCommandConfiguration(submission_groups=[SubmissionGroup(name="g", submitter_params=sp).dict()])
+            for jn in names + ["job_without_events"]:
+                cfg.add_job(GenericCommandParameters(name=jn, command="true", submission_group="g"))
+            saved_env = dict(os.environ)
+            os.environ.update(SLURM_JOB_ID="77", SLURM_NODEID="0", SLURM_CPUS_ON_NODE="1", LOCAL_SCRATCH=out)
+            try:
+                runner = JobRunner(cfg, out, batch_id=9)
+                runner._aggregate_events()
+            except Exception as e:  # noqa: BLE001
+                v.append(D.viol(f"C20:event-aggregation-raised|{type(e).__name__}", f"{type(e).__name__}: {str(e)[:200]}"))
+            finally:
+                os.environ.clear()
+                os.environ.update(saved_env)
+                logging.getLogger("_jade_event").handlers.clear()
             for jn in names:
                 if os.path.exists(os.path.join(out, "job-outputs", jn, "events.log")):
                     v.append(D.viol("C20:job-event-file-not-merged", f"{jn}/events.log still exists after aggregation"))
@@ -456,6 +472,13 @@ def run_flow(case, res):
     try:
         with H.Sim(scn, schedule=case["schedule"], event_logging=True) as sim:
             w = sim.w
+            if case.get("job_events"):
+                from jade.events import StructuredLogEvent
+
+                # the (fake) job processes log structured events of their own, as extensions' jobs do
+                w.job_event_factory = lambda job, phase: str(StructuredLogEvent(
+                    source=job.name, category="JobProgress", name="job_progress", message=f"{job.name} {phase}", phase=phase))
+                res["classes"].append("flow_job_events")
             for u in sorted(case.get("user", []), key=lambda x: x["at"]):
                 def pred(ww, at=u["at"]):
                     return ww.steps >= at and os.path.exists(os.path.join(sim.out, "submitter_groups.json"))
@@ -479,6 +502,9 @@ def run_flow(case, res):
             written = {}
             files = set()
             late = {}
+            never_merged = []
+            # reads of node / submitter event files = consolidations (reads of job-outputs/*/events.log are node-level merges)
+            node_reads = [r for r in w.event_file_reads if "/job-outputs/" not in r[0]]
             for fname, text, by, seq in w.events_written:
                 if not os.path.realpath(fname).startswith(os.path.realpath(sim.out) + os.sep):
                     continue
@@ -487,13 +513,34 @@ def run_flow(case, res):
                 except ValueError:
                     v.append(D.viol("C20:event-record-not-json", f"{os.path.basename(fname)}: {text[:100]!r}"))
                     continue
+                apath = os.path.abspath(fname)
+                if by.endswith(":job"):
+                    # an event of a job process, in job-outputs/<job>/events.log: its batch's run-jobs merges that file into
+                    # its node file at the end of the batch (first read of the file after the record was written) ...
+                    merges = sorted((rs, rp) for rf, rs, rp in w.event_file_reads if rf == apath and rs > seq)
+                    if not merges:
+                        never_merged.append(rec)
+                        continue
+                    ms, mp = merges[0]
+                    node_files = {af for af, _, ap in w.event_file_appends if ap == mp and os.path.basename(af).startswith("run_jobs_batch")}
+                    # ... and a consolidation has to read that node file afterwards
+                    if node_reads and not any(rf in node_files and rs > ms for rf, rs, _ in node_reads):
+                        late.setdefault(rec["name"], []).append((rec, f"{mp}:run-jobs"))
+                        continue
+                    written.setdefault(rec["name"], []).append(rec)
+                    files.add("job-outputs/*/events.log")
+                    continue
                 # the record reached its file after the last time any process opened that file for reading: no
                 # consolidation of the run can contain it
-                if w.event_file_reads and not any(rf == os.path.abspath(fname) and rs > seq for rf, rs, _ in w.event_file_reads):
+                if node_reads and not any(rf == apath and rs > seq for rf, rs, _ in node_reads):
                     late.setdefault(rec["name"], []).append((rec, by))
                     continue
                 written.setdefault(rec["name"], []).append(rec)
                 files.add(os.path.basename(fname))
+            if never_merged:
+                v.append(D.viol("C20:job-event-never-merged", f"{len(never_merged)} event(s) logged by job processes never reached a node "
+                                f"event file (their job-outputs/<job>/events.log was not read after they were written), e.g. "
+                                f"{[(r['source'], r['message']) for r in never_merged[:3]]}"))
             n_reads_before = len(w.event_file_reads)
             box = {}
 
